@@ -8,6 +8,9 @@ M2 (spec->code)  : the same TLC run exports the cases; `vdrive scenario` renders
                    through HCL), builds the REAL provider + gun through the registered factories and runs a
                    real engine against a scripted in-process target; TraceScenario.tla compares the ordered
                    request log, the samples and the ring with Expected(case) computed by the specification.
+Processors       : ScenarioProc.tla computes, on character sequences, what var/header (modifier chains), var/jsonpath, var/xpath capture from
+                   a response letter, whether assert/response (headers / body / status_code / size) holds and what the next step renders;
+                   `vdrive scenproc` runs one scenario per TLC-generated case through the real gun; TraceScenarioProc.tla compares the texts.
 M1 (code->spec)  : 4 instances on one shared [next] iterator; TraceScenario.NextRowsOK on the rows seen.  First-access
                    contention: 120 short runs (fresh provider each) of 8 instances that meet at a spin barrier in front
                    of every step's real preprocessor, so that the first [next] look-up of each path is simultaneous.
@@ -17,8 +20,8 @@ import os
 import vlib
 
 PID = "C15"
-NEGS = ["continue", "sleepnext", "mult", "weights", "pernext", "grpcabort", "htmlraw"]
-INVS = ["Built", "LogOK", "GapsOK", "SamplesOK", "RingOK", "NextRowsOK", "MultiSamplesOK", "MultiBagsOK"]
+NEGS = ["continue", "sleepnext", "mult", "weights", "pernext", "grpcabort", "htmlraw", "nextkey", "sleepleak"]
+INVS = ["Built", "LogOK", "GapsOK", "SamplesOK", "StepsOK", "ShotSpanOK", "RingOK", "NextRowsOK", "MultiSamplesOK", "MultiBagsOK"]
 
 
 def cases_of(r):
@@ -63,23 +66,127 @@ def validate(v, obs_path, tag=""):
         row = rows[ln - 1]
         c = row["case"]
         o = row["obs"]
-        what = "%s: %s fails; observed log=%s samples=%s ring=%s build_err=%r run_err=%r" % (
+        what = "%s: %s fails; observed log=%s samples=%s ring=%s steps=%s spans=%s build_err=%r run_err=%r" % (
             describe(c), inv,
             [(e["req"], e["val"]["t"] + str(e["val"]["n"]), e["at"], e["since"]) for e in o["log"]][:14],
             [(s["sc"] + "." + s["step"], s["proto"], s["err"]) for s in o["samples"]][:14],
-            o["ring"][:8], o["build_err"][:200], o["run_err"][:200])
+            o["ring"][:8],
+            [(x["sc"], x["mwt"], [(y["name"], y["sleep"]) for y in x["steps"]][:10]) for x in o.get("steps", [])][:3],
+            [(x["sc"], x["ms"]) for x in o.get("spans", [])][:8], o["build_err"][:200], o["run_err"][:200])
         v.violation(signature(c, inv, row["inst"]), what, replay_obj={"kind": "case", "invariant": inv, "line": row},
                     replay_name="case_%d_%s%s.json" % (c["id"], inv, tag))
+    return rows, tr
+
+
+# ---------------------------------------------------------------- processors (ScenarioProc)
+PROC_NEGS = ["sizeblind", "sizeincl"]
+PROC_INVS = ["Built", "StepAOK", "StepBOK", "FnOK"]
+
+
+def proc_cases_of(r):
+    cases, docs = [], None
+    for ln in r.out.splitlines():
+        if ln.startswith('<<"VERIF", "'):
+            cases.append(json.loads(json.loads(ln[len('<<"VERIF", '):-2])))
+        elif ln.startswith('<<"VERIFDOC", "'):
+            docs = json.loads(json.loads(ln[len('<<"VERIFDOC", '):-2]))
+    cases.sort(key=lambda c: json.dumps(c, sort_keys=True))     # TLC's order of initial states is not fixed
+    for i, c in enumerate(cases):
+        c["id"] = i + 1
+    return cases, docs
+
+
+def chars(x):
+    return "".join(x)
+
+
+def proc_describe(c):
+    if c["kind"] == "fn":
+        f = c["fn"]
+        return "fn %s(%s) in %s" % (f["f"], ",".join(str(x) for x in ([f["a"], chars(f["letters"]) if f["f"] == "randString" else f["b"]][:f["nargs"]])), c["where"])
+    out = []
+    for p in c["chain"]:
+        if p["kind"] == "header":
+            out.append("%s=%s%s" % (p["var"], p["hname"], "".join(
+                "|" + (m["m"] if m["m"] in ("lower", "upper") else
+                       "substr(%d%s)" % (m["a"], ",%d" % m["b"] if m["hasb"] else "") if m["m"] == "substr" else
+                       "replace(%s,%s)" % (chars(m["s"]), chars(m["r"]))) for m in p["mods"])))
+        elif p["kind"] == "jsonpath":
+            out.append("%s=$%s" % (p["var"], "".join("[%d]" % st["idx"] if st["idx"] >= 0 else "." + chars(st["key"]) for st in p["path"])))
+        elif p["kind"] == "xpath":
+            out.append("%s=xpath:%s(%s)" % (p["var"], p["q"]["by"], chars(p["q"]["v"])))
+        else:
+            a = p["as"]
+            out.append("assert(%s)" % ",".join(
+                ([("hdr~" + chars(a["hpat"]))] if a["hon"] else []) + (["body~" + "+".join(chars(t) for t in a["body"])] if a["body"] else []) +
+                (["status=%d" % a["status"]] if a["status"] else []) + (["size %s len%+d" % (a["op"], a["delta"])] if a["son"] else [])))
+    r = c["resp"]
+    return "response %d/%s/%s; a: %s" % (r["status"], r["hdr"], r["body"], "; ".join(out))
+
+
+def proc_signature(c, inv):
+    if c["kind"] == "fn":
+        return "fam=proc kind=fn:%s inv=%s" % (c["fn"]["f"], inv)
+    kinds = [p["kind"] for p in c["chain"]]
+    kind = kinds[0] if len(kinds) == 1 else "chain"
+    if kind == "assert":
+        a = c["chain"][0]["as"]
+        kind += ":" + ("size" if a["son"] else "header" if a["hon"] else "body" if a["body"] else "status")
+    return "fam=proc kind=%s inv=%s" % (kind, inv)
+
+
+def proc_validate(v, obs_path, tag=""):
+    rows = vlib.read_ndjson(obs_path)
+    tr = vlib.tlc("TraceScenarioProc", "TraceScenarioProc.cfg", env={"VERIF_TRACE": obs_path}, cont=True, workers=6, heap="4g",
+                  deadlock=False, timeout=900)
+    if tr.error:
+        raise vlib.MachineryError("TraceScenarioProc failed: %s\n%s" % (tr.kind, tr.out[-3000:]))
+    if tr.distinct != len(rows) + 1:
+        raise vlib.MachineryError("TraceScenarioProc visited %d states for %d lines" % (tr.distinct, len(rows)))
+    seen = set()
+    for inv, st in tr.all_violations:
+        ln = int(st.get("l", "0"))
+        if ln < 1 or (inv, ln) in seen:
+            continue
+        seen.add((inv, ln))
+        row = rows[ln - 1]
+        c, o = row["case"], row["obs"]
+        what = "%s: %s fails; observed a=%s (%d requests) b=%s (%d requests) captured=%s rendered=%r body length=%d build_err=%r run_err=%r" % (
+            proc_describe(c), inv, o["a"], o["areqs"], o["b"], o["breqs"], {k: chars(x) for k, x in o["vals"].items()}, chars(o["pval"]),
+            o["blen"], o["build_err"][:200], o["run_err"][:200])
+        v.violation(proc_signature(c, inv), what, replay_obj={"kind": "proc", "invariant": inv, "line": row},
+                    replay_name="proc_%d_%s%s.json" % (c["id"], inv, tag))
     return rows, tr
 
 
 def run(tier, v):
     thorough = tier == "thorough"
     states = trans = 0
-    # 1. design level + case export
-    mod = 3 if thorough else 9
-    r = vlib.tlc("ScenarioMC", "Scenario_thorough.cfg" if thorough else "Scenario_exh.cfg",
-                 env={"VERIF_SEED": vlib.seed(), "VERIF_MOD": mod, "VERIF_GMOD": 1 if thorough else 2}, workers=8, heap="6g", deadlock=False, timeout=2400)
+    # 1. design level + case export.  All TLC runs of the design level start at once (the small ones - two-instance
+    #    configurations, processors, negative controls - in a pool of four next to the big one) while the harness is built.
+    import concurrent.futures
+    #    The negative controls are facts about the specification alone: thorough runs all of them, quick a third (rotating
+    #    with the seed).
+    mod = 3 if thorough else 14
+    sd = int(vlib.seed())
+    negs = NEGS if thorough else [n for k, n in enumerate(NEGS) if k % 3 == sd % 3]
+    pnegs = PROC_NEGS if thorough else [PROC_NEGS[sd % 2]]
+    vlib.spec_copy()
+    big = concurrent.futures.ThreadPoolExecutor(max_workers=1)
+    ex = concurrent.futures.ThreadPoolExecutor(max_workers=2)
+    fr = big.submit(vlib.tlc, "ScenarioMC", "Scenario_thorough.cfg" if thorough else "Scenario_exh.cfg",
+                    env={"VERIF_SEED": vlib.seed(), "VERIF_MOD": mod, "VERIF_GMOD": 1 if thorough else 3,
+                         "VERIF_SMOD": 1 if thorough else 2, "VERIF_RMOD": 1 if thorough else 3},
+                    workers=8, heap="6g", deadlock=False, timeout=2400)
+    pf = ex.submit(vlib.tlc, "ScenarioProcMC", "ScenarioProc_exh.cfg", workers=2, heap="2g", deadlock=False, timeout=900)
+    f2 = ex.submit(vlib.tlc, "ScenarioMC", "Scenario_next2.cfg", workers=2, heap="4g", deadlock=False, timeout=900)
+    f3 = ex.submit(vlib.tlc, "ScenarioMC", "Scenario_src2.cfg", workers=1, heap="2g", deadlock=False, timeout=900)
+    futs = {neg: ex.submit(vlib.tlc, "ScenarioMC", "Scenario_neg_%s.cfg" % neg, workers=1, heap="1g", deadlock=False,
+                           timeout=600) for neg in negs}
+    pfuts = {neg: ex.submit(vlib.tlc, "ScenarioProcMC", "ScenarioProc_neg_%s.cfg" % neg, workers=1, heap="1g", deadlock=False,
+                            timeout=600) for neg in pnegs}
+    b = vlib.harness_build()
+    r = fr.result()
     vlib.tlc_must_pass(r, "Scenario_exh")
     vlib.log("design level: %d states, %d cases exported, %.1fs" % (r.distinct, len(cases_of(r)), r.wall))
     states += r.distinct
@@ -87,19 +194,14 @@ def run(tier, v):
     cases = cases_of(r)
     if len(cases) < 300:
         raise vlib.MachineryError("only %d cases exported" % len(cases))
-    r2 = vlib.tlc("ScenarioMC", "Scenario_next2.cfg", workers=4, heap="4g", deadlock=False, timeout=900)
-    vlib.tlc_must_pass(r2, "Scenario_next2")
-    states += r2.distinct
-    trans += r2.generated
-    import concurrent.futures
-    with concurrent.futures.ThreadPoolExecutor(max_workers=3) as ex:
-        futs = {neg: ex.submit(vlib.tlc, "ScenarioMC", "Scenario_neg_%s.cfg" % neg, workers=1, heap="1g", deadlock=False,
-                               timeout=600) for neg in NEGS}
-        for neg in NEGS:
-            vlib.tlc_must_fail(futs[neg].result(), neg)
-    vlib.log("negative controls done")
+    rp = pf.result()
+    vlib.tlc_must_pass(rp, "ScenarioProc_exh")
+    states += rp.distinct
+    trans += rp.generated
+    pcases, pdocs = proc_cases_of(rp)
+    if len(pcases) < 500 or pdocs is None:
+        raise vlib.MachineryError("only %d processor cases exported" % len(pcases))
     # 2. M2 / M1: the real code
-    b = vlib.harness_build()
     d = vlib.scratch()
     single = [c for c in cases if c["fam"] not in ("next", "first", "mfail")]
     multi = [c for c in cases if c["fam"] in ("next", "mfail")]
@@ -125,7 +227,31 @@ def run(tier, v):
         f.write(open(o1).read())
         f.write(open(o2).read())
         f.write(open(o3).read())
+    # processors: one scenario per case, every scenario shot once (4 engine runs side by side)
+    if not thorough:    # quick: every second case (by the seed's parity), all variable-function cases
+        pcases = [c for c in pcases if c["kind"] == "fn" or c["id"] % 2 == sd % 2]
+    vlib.write_ndjson(os.path.join(d, "pcases.ndjson"), pcases)
+    with open(os.path.join(d, "pdocs.json"), "w") as f:
+        json.dump(pdocs, f)
+    po = os.path.join(d, "pobs.ndjson")
+    vlib.run_driver(b, ["scenproc", "-in", os.path.join(d, "pcases.ndjson"), "-docs", os.path.join(d, "pdocs.json"), "-out", po,
+                        "-chunks", "4"], timeout=900)
+    pfut = ex.submit(proc_validate, v, po)
     rows, tr = validate(v, obs)
+    prows, ptr = pfut.result()
+    vlib.log("TraceScenarioProc: %d lines in %.1fs" % (len(prows), ptr.wall))
+    # the small design-level runs have long finished by now
+    for name, f in (("Scenario_next2", f2), ("Scenario_src2", f3)):
+        rr = f.result()
+        vlib.tlc_must_pass(rr, name)
+        states += rr.distinct
+        trans += rr.generated
+    for neg in negs:
+        vlib.tlc_must_fail(futs[neg].result(), neg)
+    for neg in pnegs:
+        vlib.tlc_must_fail(pfuts[neg].result(), "proc_" + neg)
+    ex.shutdown()
+    big.shutdown()
     for r_ in rows:     # machinery sanity: the request that got no answer came on a fresh connection (net/http never re-sends there)
         sc = r_["case"]["script"]
         if sc["kind"] == "eof" and r_["inst"] == 1:
@@ -144,7 +270,10 @@ def run(tier, v):
                         "samples": [[s["sc"] + "." + s["step"], s["proto"], s["err"]] for s in row["obs"]["samples"]][:12]})
     cov = {
         "states": states, "transitions": trans,
-        "traces_validated_against_impl": len(rows),
+        "traces_validated_against_impl": len(rows) + len(prows),
+        "processor_cases": len(prows),
+        "processor_cases_by_kind": {k: sum(1 for r_ in prows if proc_signature(r_["case"], "")[:-5] == k)
+                                    for k in sorted({proc_signature(r_["case"], "")[:-5] for r_ in prows})},
         "samples": samples,
         "exhaustive": False,
         "evaluations": len(rows), "distinct_nontrivial": nontrivial,
@@ -155,14 +284,17 @@ def run(tier, v):
         "samples_observed": sum(len(r_["obs"]["samples"]) for r_ in rows),
         "hcl_cases": sum(1 for r_ in rows if r_["obs"]["format"] == "hcl"),
         "trace_spec_states": tr.distinct,
-        "negative_controls": NEGS,
-        "design_configs": ["Scenario_thorough.cfg" if thorough else "Scenario_exh.cfg", "Scenario_next2.cfg"],
+        "negative_controls": negs + ["proc_" + n for n in pnegs],
+        "design_configs": ["Scenario_thorough.cfg" if thorough else "Scenario_exh.cfg", "Scenario_next2.cfg", "Scenario_src2.cfg"],
     }
     return "model_checking", cov, [
         "design level exhaustive within: <= 3 listed requests, multiplicities 1..3, sleeps 0/3/4 ms, 9 flow profiles, "
         "scripts ok / transport@k / status 418@k / truncated body@k / clean close without a response byte@k for every k of the first shot + 1, 2 shots; weights in {1,2,3,4,6} for 1..3 scenarios",
         "the replayed subset of the flow cases is chosen by id modulo (seeded); ring, iter and next cases are all replayed",
-        "pauses are checked one-sidedly (>= requested); min_waiting_time, [rand] and the html templater are not modelled",
+        "pauses and min_waiting_time are checked one-sidedly (gap / shot span >= requested); the expanded step list of the real provider (name, pause per step) exactly; "
+        "[rand] and randInt / randString / uuid only by shape and range",
+        "processors: 862 cases (response letters x var/header modifier chains, var/jsonpath, var/xpath, assert/response predicates, chains of them, variable functions); "
+        "quick replays every second one; substr only inside its pinned range",
         "trusted: renderer and recorder (harness/cmd/vdrive/scenario.go, harness/internal/scentarget)"]
 
 
@@ -171,6 +303,17 @@ def replay(path, v):
     b = vlib.harness_build()
     d = vlib.scratch()
     row = obj["line"]
+    if obj.get("kind") == "proc":
+        r = vlib.tlc("ScenarioProcMC", "ScenarioProc_exh.cfg", workers=2, heap="2g", deadlock=False, timeout=900)
+        vlib.tlc_must_pass(r, "ScenarioProc_exh")
+        _, docs = proc_cases_of(r)
+        vlib.write_ndjson(os.path.join(d, "pc.ndjson"), [row["case"]])
+        with open(os.path.join(d, "pdocs.json"), "w") as f:
+            json.dump(docs, f)
+        po = os.path.join(d, "po.ndjson")
+        vlib.run_driver(b, ["scenproc", "-in", os.path.join(d, "pc.ndjson"), "-docs", os.path.join(d, "pdocs.json"), "-out", po, "-chunks", "1"])
+        proc_validate(v, po, tag="_replay")
+        return None
     vlib.write_ndjson(os.path.join(d, "c.ndjson"), [row["case"]])
     o = os.path.join(d, "o.ndjson")
     args = ["scenario", "-in", os.path.join(d, "c.ndjson"), "-out", o, "-instances", str(row["inst"]),
@@ -193,7 +336,9 @@ MANIFEST = dict(
          "exported case is rendered to the real payload format and executed by the real code, so a divergence in order, "
          "multiplicity, variable flow, failure handling, weights or [next] sharing shows up as a rejected observation.",
     note="bounds: <= 3 listed requests x multiplicity 1..3, 9 flow profiles, 2 shots, 1 failure per run (quick: representative "
-         "shapes for lists of 2 and 3, failure positions <= 5; a seeded 1/7 of the flow cases is replayed, 1/3 in thorough); pauses "
-         "one-sided; ring order inside a cycle not demanded; a missing template variable is '<no value>', not a failure; [rand], "
-         "min_waiting_time not covered; grpc/scenario gun and html templater are dimensions of the case space; renderer/recorder trusted",
+         "shapes for lists of 2 and 3, failure positions <= 5; a seeded 1/14 of the flow cases is replayed, 1/3 in thorough); pauses and "
+         "min_waiting_time one-sided; ring order inside a cycle not demanded; a missing template variable is '<no value>', not a failure; "
+         "data sources are csv / nested json / variables lists with [next] (counter per full path), [last], [rand], integer indexes; "
+         "processors (ScenarioProc.tla) as functions on character sequences over a response alphabet of 30 letters; random functions by "
+         "shape only; grpc/scenario gun and html templater are dimensions of the case space; renderer/recorder trusted",
 )
